@@ -51,6 +51,7 @@ struct C09World {
   bool stable_etag = true;
   std::set<Bytes> etags_on_wire;
   bool session_tokens = false;
+  std::map<int, uint64_t> client_first_tx;   // mid of a client request -> instant of its first transmission
   std::map<Bytes, int> wire_token_owner;   // token seen in a client request datagram -> transfer id (from its Uri-Query id=K)
   bool request_copy_delivered_twice = false;   // the network handed some client request datagram to the server more than once
   std::set<int> non_response_lost;         // transfers of which the network dropped a Non-confirmable response
@@ -157,7 +158,15 @@ void nack_cb(coap_session_t *, const coap_pdu_t *sent, const coap_nack_reason_t 
     std::string owner = "unknown_owner";
     auto it = g->wire_token_owner.find(tok);
     if (it != g->wire_token_owner.end()) if (Xfer *o = by_id(it->second)) { o->nacks++; owner = "state_token_of_a_running_transfer"; }
-    g->res->violate("R5.foreign_token", std::string(tok.size() <= 2 ? "short_library_token_nack" : "other_token_nack") + "," + owner + (reason == COAP_NACK_TOO_MANY_RETRIES ? ",give_up" : ",other_reason"), strfmt("client NACK handler saw token %s that the application never issued", hex(tok).c_str()));
+    // libcoap's transfer state (lg_crcv / lg_xmit) expires MAX_TRANSMIT_WAIT (93 s with the default parameters used here) after its last
+    // use; a give-up that comes earlier than that cannot be the known expiry race (known_findings.txt): the signature says which
+    std::string when = "";
+    if (reason == COAP_NACK_TOO_MANY_RETRIES) {
+      auto ft = g->client_first_tx.find((int)mid & 0xffff);
+      double span_s = ft == g->client_first_tx.end() ? 0 : (g->w.now() - ft->second) / 1e9;
+      when = span_s >= 91.0 ? ",at_state_expiry_horizon" : ",before_state_expiry_horizon";
+    }
+    g->res->violate("R5.foreign_token", std::string(tok.size() <= 2 ? "short_library_token_nack" : "other_token_nack") + "," + owner + (reason == COAP_NACK_TOO_MANY_RETRIES ? ",give_up" : ",other_reason") + when, strfmt("client NACK handler saw token %s that the application never issued", hex(tok).c_str()));
     return;
   }
   x->nacks++;
@@ -304,6 +313,7 @@ struct C09 : Property {
       if (e.d->data.size() > lim) res.violate("R5.datagram_exceeds_mtu", e.from == 0 ? "client" : "server", strfmt("node %d sent a %zu-byte datagram, session maximum is %zu", e.from, e.d->data.size(), lim));
       r1::Msg m;
       if (e.from == 1 && r1::decode_udp(e.d->data, m) == r1::ACCEPT && m.find(r1::O_ETAG)) cw.etags_on_wire.insert(m.find(r1::O_ETAG)->val);
+      if (e.from == 0 && r1::decode_udp(e.d->data, m) == r1::ACCEPT && m.code >= 1 && m.code < 32) cw.client_first_tx.insert({m.mid, e.t_ns});
       if (e.from == 0 && r1::decode_udp(e.d->data, m) == r1::ACCEPT && m.code >= 1 && m.code < 32)
         for (auto &o : m.opts)
           if (o.num == r1::O_URI_QUERY && o.val.size() > 3 && o.val[0] == 'i' && o.val[1] == 'd' && o.val[2] == '=')
